@@ -275,6 +275,12 @@ def _copy_crate(name, digest, mounts_enabled, tree=None, kani_override=None):
         toml = toml.replace(
             "[dependencies]\n",
             f'[dependencies]\n{PLAT} = {{ path = "{VERIF}/models/platform" }}\n', 1)
+        if name == "rawdb":
+            fwd = f'verif_teardown = ["{PLAT}/teardown"]\n'
+            if re.search(r"^\[features\]\n", toml, re.M):
+                toml = re.sub(r"^\[features\]\n", "[features]\n" + fwd, toml, count=1, flags=re.M)
+            else:
+                toml += "\n[features]\n" + fwd
         if '[lints' not in toml:
             toml += '\n[lints]\nworkspace = true\n'
     dp = os.path.join(dst_root, "Cargo.toml")
